@@ -83,6 +83,20 @@ def system(n, na, nb, nchol, seed, walker_type, scale=0.35):
     raise RuntimeError("no well-gapped converged SCF system found")
 
 
+def symmetric_system(n=4, u=2.0):
+    """A closed-shell ring with on-site repulsion: spatial symmetry gives exactly degenerate one-body levels
+    (ring of 4: -2, 0, 0, 2), the situation in which eigen-decomposition based derivatives lose components."""
+    K = np.zeros((n, n))
+    for i in range(n):
+        K[i, (i + 1) % n] = K[(i + 1) % n, i] = -1.0
+    chol = np.array([np.sqrt(u) * np.diag(np.eye(n)[i]) for i in range(n)])
+    h1 = np.array([K, K])
+    ca, cb, info = scf(h1, chol, 1, 1, True)
+    if not (info["err"] < 1e-12 and info["stable"] < 3e-9):
+        raise RuntimeError("symmetric system did not converge to a stable SCF solution: %r" % (info,))
+    return dict(n=n, na=1, nb=1, h0=0.1, h1=h1, chol=chol, ca=ca, cb=cb, info=info)
+
+
 def build(sysd, walker_type, n_walkers, dt=0.01, n_batch=1, trial_kind=None, n_opt_iter=30):
     """Library objects for a system: ham handler, ham_data (with both intermediates), prop, trial, wave_data."""
     L = lib()
